@@ -91,6 +91,15 @@ def tr_expr(node, call, env):
         if _is_uuid4_call(a):
             return call.new_hex(36)
         return tr_expr(a, call, env)
+    if isinstance(node, ast.Subscript) and isinstance(node.slice, ast.Slice):
+        # a slice of a string: any substring of it (length unconstrained below the original) - over-approximation;
+        # a truncated uuid no longer carries the distinctness contract
+        whole = tr_expr(node.value, call, env)
+        part = z3.String(f"slice{call.i}_{len(call.cons)}")
+        call.cons.append(z3.Contains(whole, part))
+        if whole in call.hexes:
+            call.hexes.remove(whole)
+        return part
     if _is_counter(node):
         raise Unencodable("counter used outside of string formatting")
     if isinstance(node, ast.Attribute) and isinstance(node.value, ast.Name) and node.value.id == "self":
@@ -231,15 +240,17 @@ def real_collision(prefix="leaf"):
     forced lost-update schedule.  -> (collides, description)"""
     from lsst.daf.relation import iteration, sql
 
-    e1, e2 = iteration.Engine(name="e1"), sql.Engine(name="e2")
-    names = [e1.get_relation_name(prefix), e1.get_relation_name(prefix), e2.get_relation_name(prefix),
-             e2.get_relation_name(prefix)]
-    if len(set(names)) != len(names):
-        return True, f"sequential requests returned {names}"
-    a, b = _forced_lost_update(prefix)
-    if a is not None and a == b:
-        return True, f"two threads under the read/read/write/write schedule both got {a!r}"
-    return False, f"sequential {names[:2]}, forced schedule {[a, b]}"
+    tried = []
+    for pfx in dict.fromkeys([prefix, "leaf", "p" * 62, ""]):
+        e1, e2 = iteration.Engine(name="e1"), sql.Engine(name="e2")
+        names = [e1.get_relation_name(pfx), e1.get_relation_name(pfx), e2.get_relation_name(pfx), e2.get_relation_name(pfx)]
+        if len(set(names)) != len(names):
+            return True, f"sequential requests (prefix {pfx!r}) returned {names}"
+        a, b = _forced_lost_update(pfx)
+        if a is not None and a == b:
+            return True, f"two threads under the read/read/write/write schedule both got {a!r}"
+        tried.append((pfx[:8], names[:2], [a, b]))
+    return False, f"no collision reproduced: {tried}"
 
 
 def run_shape(shape, tier):
